@@ -289,6 +289,8 @@ def _circumstance(scn, a, b, prev, op: int, bs: List[int], field: str) -> Dict[s
             out["excuse"] = "nbcd"                # operands that are not BCD digits
         if field == "I" and a[4] == 0 and b[4] == i_before:
             out["pattern"] = "py_zero_rs_kept"
+    if op in (0xCB, 0xCF) and "excuse" not in out:
+        out["move"] = feat.get("move", "?")     # MVL/MVLD (m),(n): overlap direction of source and destination
     if op in (0x2E, 0x4F, 0xFE) and field == "writes":
         pw, rw = dict(map(tuple, a[13])), dict(map(tuple, b[13]))
         if set(pw) - {0x1000FB} == set(rw) - {0x1000FB} and all(pw[k] == rw[k] or pw[k] == (rw[k] & 3) for k in rw if k in pw):
